@@ -735,6 +735,14 @@ def run_consumer(orc, mgr, calls, steps):
         go()
 
 
+def consumer_exc(orc, ex, calls):
+    """Result of a consumer harness whose body raised: a second set_result on a Future (InvalidStateError) gets its own label."""
+    for c in calls:
+        if c.future is not None and len(c.future.results) > 1:
+            orc.fail('future_completed_twice')
+    return exc_result(orc, ex)
+
+
 # ------------------------------------------------------------------------------------------------ consumer obligations
 
 def _steps_one_call(groups, pos):
@@ -788,6 +796,7 @@ def consumer_one_call(n: int, pos: int, pool: int, lean: bool, rf: bool, r: int,
     post: __return__ == 'ok'
     """
     orc = Oracle()
+    calls = []
     try:
         n = pickv(n, (1, 2, 3))
         pos = pick(pos, range(n + 1))
@@ -800,10 +809,10 @@ def consumer_one_call(n: int, pos: int, pool: int, lean: bool, rf: bool, r: int,
         if parts is None:
             return 'ok'
         mgr = mk_manager()
-        calls = [Call(ta, resp)]
+        calls.append(Call(ta, resp))
         run_consumer(orc, mgr, calls, _steps_one_call([[p] for p in parts], pos))
     except Exception as ex:  # noqa: BLE001
-        return exc_result(orc, ex)
+        return consumer_exc(orc, ex, calls)
     return orc.result()
 
 
@@ -824,6 +833,7 @@ def consumer_multi_part(n: int, early: bool, pool: int, lean: bool, rf: bool, r:
     post: __return__ == 'ok'
     """
     orc = Oracle()
+    calls = []
     try:
         n = pickv(n, (2, 3))
         pool = STATES[:pickv(pool, (4, 5, 6, 7))]
@@ -835,9 +845,10 @@ def consumer_multi_part(n: int, early: bool, pool: int, lean: bool, rf: bool, r:
         if parts is None:
             return 'ok'
         mgr = mk_manager()
-        run_consumer(orc, mgr, [Call(ta, resp)], _steps_one_call([parts], 1 if early else 0))
+        calls.append(Call(ta, resp))
+        run_consumer(orc, mgr, calls, _steps_one_call([parts], 1 if early else 0))
     except Exception as ex:  # noqa: BLE001
-        return exc_result(orc, ex)
+        return consumer_exc(orc, ex, calls)
     return orc.result()
 
 
@@ -866,6 +877,7 @@ def consumer_two_calls(n: int, pa: int, pb: int, pool: int, lean: bool, nresp: i
     post: __return__ == 'ok'
     """
     orc = Oracle()
+    calls = []
     try:
         n = pickv(n, (1, 2, 3))
         pb = pick(pb, range(n + 1))
@@ -885,9 +897,10 @@ def consumer_two_calls(n: int, pa: int, pb: int, pool: int, lean: bool, nresp: i
         mgr = mk_manager()
         steps = [('report', [p]) for p in parts[:pa]] + [('resp', 0)] + [('report', [p]) for p in parts[pa:pb]] + [('resp', 1)] \
             + [('report', [p]) for p in parts[pb:]]
-        run_consumer(orc, mgr, [Call(ta, resp_a), Call(tb, resp_b)], steps)
+        calls += [Call(ta, resp_a), Call(tb, resp_b)]
+        run_consumer(orc, mgr, calls, steps)
     except Exception as ex:  # noqa: BLE001
-        return exc_result(orc, ex)
+        return consumer_exc(orc, ex, calls)
     return orc.result()
 
 
@@ -905,6 +918,7 @@ def end_to_end(kind: int, known: bool, delayed: bool, npool: int, outcome: int, 
     post: __return__ == 'ok'
     """
     orc = Oracle()
+    calls = []
     try:
         kind = pick(kind, range(7))
         known, delayed = bool(known), bool(delayed)
@@ -919,8 +933,9 @@ def end_to_end(kind: int, known: bool, delayed: bool, npool: int, outcome: int, 
         tid = resp.InvocationInfo.TransactionId
         mgr = mk_manager()
         call = Call(tid, resp)
+        calls.append(call)
         groups = [list(rep.ReportPart) for rep in reports]
-        run_consumer(orc, mgr, [call], _steps_one_call(groups, pos))
+        run_consumer(orc, mgr, calls, _steps_one_call(groups, pos))
         # end-to-end expectation: the handle completes exactly once with the state the handler produced (Fail if it raised or
         # if the operation is unknown)
         fut = call.future
@@ -931,5 +946,5 @@ def end_to_end(kind: int, known: bool, delayed: bool, npool: int, outcome: int, 
         orc.check(state == expected, 'future_result_state!=handler_result')
         orc.check(fut.results[0].InvocationInfo.TransactionId == tid, 'future_completed_by_other_transaction')
     except Exception as ex:  # noqa: BLE001
-        return exc_result(orc, ex)
+        return consumer_exc(orc, ex, calls)
     return orc.result()
